@@ -364,7 +364,18 @@ def _symmetric_tail(repo: Repo, chk: Check, f: Func, fl: Flow) -> None:
     ok_ins = any(len(s.node.args) > 1 and norm.match(T("InsertPoint.before($o)"), s.node.args[1]) is not None and bool(has_fact(s, ["$o in $l"])) for s in ins)
     chk.result(ok_ins, "C13.symmetric", f"{f.key}:insert-before", ins[0].where() if ins else f.where,
                "a barrier is inserted before an op that is pending", "the barrier is not inserted before the pending op")
-    resets = [s for s in fl.stmts(ast.Assign, ast.AnnAssign) if s.reachable and isinstance(getattr(s.node, "value", None), ast.List) and not s.node.value.elts and s.loops]
+    def _is_reset(s_) -> str | None:
+        """'all' = the pending list is emptied, 'scoped' = it keeps the ops a filter selects (`[x for x in pending if not <covered>(x, ..)]`)"""
+        v_ = getattr(s_.node, "value", None)
+        t_ = s_.node.targets[0] if isinstance(s_.node, ast.Assign) else s_.node.target
+        if isinstance(v_, ast.List) and not v_.elts:
+            return "all"
+        if isinstance(v_, ast.ListComp) and len(v_.generators) == 1 and ast.unparse(v_.generators[0].iter) == ast.unparse(t_) and v_.generators[0].ifs \
+                and ast.unparse(v_.elt) == ast.unparse(v_.generators[0].target):
+            return "scoped"
+        return None
+
+    resets = [s for s in fl.stmts(ast.Assign, ast.AnnAssign) if s.reachable and s.loops and _is_reset(s) is not None]
     under_sync = [s for s in resets if has_fact(s, ["isinstance($o, snax.ClusterSyncOp)", "isinstance($o, ClusterSyncOp)"])]
     under_insert = [s for s in resets if has_fact(s, ["$o in $l"])]
     if not (under_sync and under_insert):
@@ -384,6 +395,16 @@ def _symmetric_tail(repo: Repo, chk: Check, f: Func, fl: Flow) -> None:
                         under_insert.append(s)
     chk.result(bool(under_sync) and bool(under_insert), "C13.symmetric", f"{f.key}:resets", f.where,
                "both an existing and an inserted barrier reset the pending list")
+    # a barrier is on the path to the ops of its own block only: the other branch of an scf.if, the ops behind a loop that may not run, are reached without it
+    chk.rule("C13.barrier-scope", "a barrier (inserted or found) takes from the pending list only the ops that lie in the barrier's own block, directly or nested; "
+             "it never empties the list", floor=1)
+    for n_, s in enumerate(resets, 1):
+        kind = _is_reset(s)
+        scoped = kind == "scoped" and any(isinstance(c_, ast.Call) for i_ in s.node.value.generators[0].ifs for c_ in ast.walk(i_))
+        chk.result(scoped, "C13.barrier-scope", f"{f.key}:reset#{n_}", s.where(), "only the ops in the barrier's block stop waiting for a barrier",
+                   "the whole pending list is dropped at a barrier, wherever the barrier sits: with a consumer in the then- and another in the else-branch of an scf.if "
+                   "only the first walked branch gets a barrier, the other path from the producer to its consumer has none (likewise a consumer behind a loop whose "
+                   "body holds the barrier)")
     every_value(chk, f, fl)
     walk = [s for s in fl.stmts(ast.For) if s.reachable and norm.match(T("$m.walk()"), s.node.iter) is not None]
     chk.result(bool(walk), "C13.symmetric", f"{f.key}:walk-order", f.where, "the module is walked in program order (no reverse / region_first)")
